@@ -196,6 +196,12 @@ fn type_directed_arg(r: &mut Rng, name: &str) -> RV {
     let num = |r: &mut Rng| match r.below(6) {
         // close to the points where series expansions, argument reductions and special cases switch over
         4 | 5 => {
+            if r.chance(1, 4) {
+                // where exp / sinh / cosh / exp2 / pow leave the finite range or enter the subnormals: 700 … 720, 1020 … 1030,
+                // -750 … -700, -1080 … -1020
+                let (lo, hi) = *r.pick(&[(700.0f64, 720.0f64), (-720.0, -700.0), (-750.0, -740.0), (1020.0, 1030.0), (-1080.0, -1020.0), (88.0, 90.0), (36.0, 38.0)]);
+                return RV::Float(lo + (hi - lo) * (r.below(100_001) as f64 / 100_000.0));
+            }
             let center = *r.pick(&[1.0f64, -1.0, 0.0, 0.5, 2.0, 10.0, std::f64::consts::E, std::f64::consts::FRAC_PI_2, std::f64::consts::PI, 0.25, 4.0, 1024.0, 709.0, -745.0]);
             let width = *r.pick(&[0.25f64, 0.125, 1e-3, 1e-6, 1e-9]);
             RV::Float(center + width * ((r.below(20001) as f64 - 10000.0) / 10000.0))
@@ -316,6 +322,54 @@ impl Phase for IntSweep {
             check_call(out, name, tree, &RV::Tuple(vec![other.clone(), RV::Int(k)]), false);
             check_call(out, name, tree, &RV::Tuple(vec![RV::Float(k as f64), other]), false);
         }
+    }
+}
+
+/// every builtin with every number of arguments 0..=10 and the boundary sizes, all of one kind (true, 1, 2.5, "a") or
+/// a boolean followed by integers: fixed-arity builtins reject all but their own arity, whatever the count's parity
+struct ArgumentCounts {
+    names: Vec<&'static str>,
+    trees: Vec<Option<Node>>,
+}
+
+const COUNTS: [usize; 19] = [0, 1, 2, 3, 4, 5, 6, 7, 8, 9, 10, 15, 16, 17, 31, 32, 33, 255, 256];
+
+impl Phase for ArgumentCounts {
+    fn name(&self) -> String {
+        "argument counts 0..10 and boundary sizes x 5 fillings".into()
+    }
+    fn len(&self) -> u64 {
+        (self.names.len() * COUNTS.len() * 5) as u64
+    }
+    fn exhaustive(&self) -> bool {
+        true
+    }
+    fn run(&mut self, idx: u64, _r: &mut Rng, out: &mut Out) {
+        let mut i = idx as usize;
+        let fill = i % 5;
+        i /= 5;
+        let n = COUNTS[i % COUNTS.len()];
+        i /= COUNTS.len();
+        let name = self.names[i];
+        let elem = |k: usize| match fill {
+            0 => RV::Bool(true),
+            1 => RV::Int(k as i64 + 1),
+            2 => RV::Float(2.5 + k as f64),
+            3 => RV::Str("a".into()),
+            _ => {
+                if k == 0 {
+                    RV::Bool(k % 2 == 0)
+                } else {
+                    RV::Int(k as i64)
+                }
+            },
+        };
+        let arg = match n {
+            0 => RV::Empty,
+            1 => elem(0),
+            _ => RV::Tuple((0..n).map(elem).collect()),
+        };
+        check_call(out, name, &self.trees[i], &arg, false);
     }
 }
 
@@ -610,6 +664,10 @@ pub fn phases_with(cfg: &Cfg, extra: &[&'static str]) -> Vec<Box<dyn Phase>> {
             sub2: build_opt("str::substring(x, i)"),
         }),
         Box::new(IntSweep {
+            trees: call_trees(&names),
+            names: names.clone(),
+        }),
+        Box::new(ArgumentCounts {
             trees: call_trees(&names),
             names: names.clone(),
         }),
